@@ -472,7 +472,9 @@ def history_steps(case, oracle, res, out, swap=False, nlv_path=None):
             if q == 0 and abs(got) > 1e-12:
                 res.fail("contract %d is flat after op %s but %.6g of margin is still posted" % (i, tag, got))
                 return False
-            if not close(got, want, rel=1e-9, abs_=1e-9 * led.scale() if want == 0 else 0.0):
+            # (the posted margin is what is left after the variation margin - an amount on the account's money scale - is
+            #  added and the excess swept to cash: it carries that scale's rounding, ~1e-16 x scale, however small it is)
+            if not close(got, want, rel=1e-9, abs_=1e-9 * led.scale() if want == 0 else 1e-12 * led.scale()):
                 res.fail("margin of contract %d after op %s: posted %.12g, requirement x multiplier x |q| x liq = %.12g" % (
                     i, tag, got, want))
                 return False
